@@ -316,7 +316,8 @@ func c09Program(c *core.Ctx, i int64, src []byte, name, tag string, r *rand.Rand
 	c.Max("max_dump_bytes", int64(len(dump)))
 	readers := c09Readers
 	for ri, rd := range readers {
-		lp, got, lerr, pan, stack := observeLoaded(rd.mk(dump, r), name)
+		// LoadProg is given another name than the program was parsed under: the name stored in the dump must win
+		lp, got, lerr, pan, stack := observeLoaded(rd.mk(dump, r), "name-given-to-LoadProg")
 		c.Eval(1)
 		c.Count("loads_via_"+rd.name, 1)
 		if pan != "" {
@@ -339,8 +340,33 @@ func c09Program(c *core.Ctx, i int64, src []byte, name, tag string, r *rand.Rand
 			}
 		}
 	}
+	// Load into a Prog that already holds another program (with a longer line table)
+	{
+		var out2, lg2 bytes.Buffer
+		other := strings.Repeat("\n", 40+len(src)) + "print 12345\n"
+		if ep, err := bcl.Parse([]byte(other), "earlier", bcl.OptOutput(&out2), bcl.OptLogger(&lg2)); err == nil {
+			var lerr error
+			pan, _ := protect(func() { lerr = ep.Load(bytes.NewReader(dump)) })
+			c.Eval(1)
+			if pan != "" || lerr != nil {
+				c.Violation("load-into-existing-prog", fmt.Sprintf("Prog.Load into a Prog that held another program: err=%v panic=%q", lerr, pan), det(nil))
+				return
+			}
+			out2.Reset()
+			lg2.Reset()
+			ex := execProg(ep)
+			ex.out, ex.log = out2.String(), lg2.String()
+			d2, _, _, _ := dumpOf(ep)
+			w := want.exec
+			if ex.pan != "" || ex.out != w.out || ex.log != w.log || ex.err != w.err || !deepBlocksEq(ex.blocks, w.blocks) || !deepBindingEq(ex.binding, w.binding) || !bytes.Equal(d2, dump) {
+				c.Violation("load-into-existing-prog", fmt.Sprintf("a Prog reloaded from this dump differs from the parsed program: out %q vs %q, err %q vs %q, log %q vs %q, redump equal %v", core.Trunc(ex.out, 100), core.Trunc(w.out, 100), ex.err, w.err, core.Trunc(ex.log, 200), core.Trunc(w.log, 200), bytes.Equal(d2, dump)), det(nil))
+				return
+			}
+			c.Count("loads_into_an_existing_prog", 1)
+		}
+	}
 	// every 2-partition for small dumps
-	if len(dump) <= 600 && (c.Tier == "thorough" || i%8 == 0) {
+	if (len(dump) <= 600 && (c.Tier == "thorough" || i%8 == 0)) || (len(dump) <= 1500 && tag != "generated" && tag != "float_bit_patterns") {
 		for cut := 1; cut < len(dump); cut++ {
 			_, got, lerr, pan, _ := observeLoaded(&chunkReader{data: dump, sizes: []int{cut}}, name)
 			c.Eval(1)
@@ -397,6 +423,18 @@ type c09Fixed struct {
 
 func c09FixedList() []c09Fixed {
 	var l []c09Fixed
+	for n := 3; n <= 131; n++ {
+		n := n
+		l = append(l, c09Fixed{"string_constant_size", "in", func() string {
+			return fmt.Sprintf("var s = %q\ndef b %q { f = s + 1.5 }\nprint s\n", strOfLen(n, nil), strOfLen(n, nil))
+		}})
+	}
+	l = append(l, c09Fixed{"many_lines", "in", func() string {
+		return strings.Repeat("\n", 65530) + strings.Repeat("var v = 1\n", 1)[:0] + "print 1\n\n\n\n\n\n\n\n\nprint 2\nprint 3 + \"s\"\nprint 1 + \"late\"\n"
+	}})
+	l = append(l, c09Fixed{"many_lines", "in", func() string {
+		return strings.Repeat("#\n", 70000) + "def b { x = 1 }\nbind b -> struct\nbind b -> struct\nprint 1 + \"late\"\n"
+	}})
 	for _, n := range sizeClasses {
 		n := n
 		l = append(l, c09Fixed{"string_constant_size", "in", func() string {
@@ -525,12 +563,18 @@ func (w *failingWriter) Write(p []byte) (int, error) {
 }
 
 func c13Load(data []byte, oneByte bool) (err error, pan, stack string, p *bcl.Prog) {
+	return c13LoadOpt(data, oneByte, false)
+}
+
+func c13LoadOpt(data []byte, oneByte, disasm bool) (err error, pan, stack string, p *bcl.Prog) {
 	var r io.Reader = bytes.NewReader(data)
 	if oneByte {
 		r = &chunkReader{data: data, rest: 1}
 	}
 	var out, lg bytes.Buffer
-	pan, stack = protect(func() { p, err = bcl.LoadProg(r, "t", bcl.OptOutput(&out), bcl.OptLogger(&lg)) })
+	pan, stack = protect(func() {
+		p, err = bcl.LoadProg(r, "t", bcl.OptOutput(&out), bcl.OptLogger(&lg), bcl.OptDisasm(disasm), bcl.OptStats(disasm))
+	})
 	return
 }
 
@@ -571,10 +615,10 @@ func c13Dump(c *core.Ctx, dump []byte, src string, allCuts bool, r *rand.Rand) {
 		}
 	}
 	for _, cut := range cuts {
-		for mode := 0; mode < 2; mode++ {
-			err, pan, stack, _ := c13Load(dump[:cut], mode == 1)
+		for mode := 0; mode < 3; mode++ {
+			err, pan, stack, _ := c13LoadOpt(dump[:cut], mode == 1, mode == 2)
 			c.Eval(1)
-			m := []string{"whole", "one-byte"}[mode]
+			m := []string{"whole", "one-byte", "whole, disassembly and statistics on"}[mode]
 			if pan != "" {
 				c.Violation("truncated-panic:"+stripDigits(pan), fmt.Sprintf("LoadProg panicked on a dump cut at byte %d of %d (%s reader): %s\n%s", cut, len(dump), m, pan, core.Trunc(stack, 700)), det(cut, m))
 				return
@@ -605,6 +649,9 @@ func c13Sources(c *core.Ctx) []string {
 		"def a { def c \"k\" { z = not true and 1 or nil } }\nprint 1 <= 2\n\n\nprint \"x\"+1",
 		"print \"" + strOfLen(5000, nil) + "\"",
 		"def " + identOfLen(300) + " { " + identOfLen(2300) + " = 1 }",
+		// more than 65536 line feeds and more than 65536 code bytes: tables longer than any 16-bit count
+		strings.Repeat("\n", 65600) + "print 1\n",
+		"print 1" + strings.Repeat("+1", 33000) + "\n",
 	}
 	return l
 }
